@@ -224,6 +224,17 @@ func opUnmarshal(p []string) string {
 		return "I=b V=- O=ok"
 	}
 	fl := runSteps(u, ts)
+	// the same through one reused token slot with stale fields (what a pump feeds): when that differs, it is reported
+	{
+		target2 := reflect.New(t)
+		u2 := obj.NewUnmarshaller(a.atl)
+		if e2, p2 := safeBindU(u2, target2.Interface()); e2 == nil && !p2 {
+			fl2 := runStepsSlot(u2, ts)
+			if fl2 != fl || (strings.HasSuffix(fl, "D") && dumpValue(target2.Elem()) != dumpValue(target.Elem())) {
+				fl, target = fl2, target2
+			}
+		}
+	}
 	oracle := "ok"
 	val := "-"
 	if strings.HasSuffix(fl, "P") {
@@ -238,6 +249,26 @@ func opUnmarshal(p []string) string {
 		if len(ts) == 1 && (ts[0].Type == tok.TInt || ts[0].Type == tok.TUint) {
 			if e := exactNumber(ts[0], target.Elem()); e != "" {
 				oracle = "viol:" + e
+			}
+		}
+		// ... and so must integers stored into the narrow fields of a struct (the last entry for a key counts)
+		if t == reflect.TypeOf(Narrow{}) && len(ts) >= 2 && len(ts)%2 == 0 && ts[0].Type == tok.TMapOpen {
+			last := map[int]tok.Token{}
+			plain := true
+			for i := 1; i+1 < len(ts)-1; i += 2 {
+				k, v := ts[i], ts[i+1]
+				if k.Type != tok.TString || len(k.Str) != 1 || k.Str[0] < 'a' || k.Str[0] > 'd' || (v.Type != tok.TInt && v.Type != tok.TUint) {
+					plain = false
+					break
+				}
+				last[int(k.Str[0]-'a')] = v
+			}
+			if plain {
+				for fi, tk := range last {
+					if e := exactNumber(tk, target.Elem().Field(fi)); e != "" {
+						oracle = "viol:field-" + e
+					}
+				}
 			}
 		}
 	}
